@@ -434,7 +434,8 @@ fn incl_case(idx: u64) -> CaseResult {
     );
     let inc_asm = if with_asm { "#include \"t.inc\"" } else { "" };
     let plain = format!("#include \"hp.h\"\n{}\n{}", inc_asm.replace("t.inc", "tp.inc"), body);
-    let deco = format!("#include \"hd.h\" {}\n{} {}\n{}", c(&mut rng), inc_asm.replace("t.inc", "td.inc"), if with_asm { c(&mut rng) } else { "" }, body);
+    let lead = ["", "  ", "\t", "/* first */ ", " /* a // b */ "][rng.below(5) as usize];
+    let deco = format!("{}#include \"hd.h\" {}\n{} {}\n{}", lead, c(&mut rng), inc_asm.replace("t.inc", "td.inc"), if with_asm { c(&mut rng) } else { "" }, body);
     // which files are decorated: the including line only, or the included files too
     let deco_files = rng.chance(2, 3);
     let _ = std::fs::write(format!("{}/hp.h", dir), hdr_plain);
@@ -482,6 +483,7 @@ pub fn c11_pins() -> Vec<(&'static str, &'static str, &'static str)> {
         ("ifdef_extra_blanks", "#define TURBO 1\n#ifdef TURBO\nunsigned char boost;\n#endif\n#ifndef TURBO\nunsigned char slow;\n#endif\nvoid main() { }\n", "#define TURBO 1\n#ifdef   TURBO\nunsigned char boost;\n#endif\n#ifndef  TURBO\nunsigned char slow;\n#endif\nvoid main() { }\n"),
         ("ifdef_comment_before_name", "#define TURBO 1\nunsigned char s;\n#ifdef TURBO\nunsigned char boost;\n#endif\nvoid main() { s = 1; }\n", "#define TURBO 1\nunsigned char s;\n#ifdef /* fast build */ TURBO\nunsigned char boost;\n#endif /* TURBO */\nvoid main() { s = 1; }\n"),
         ("comment_glues_tokens", "unsigned char a;\nvoid main() { a = 1; }\n", "unsigned/**/char a;\nvoid main() { a = 1; }\n"),
+        ("do_without_a_blank", "unsigned char i;\nvoid main() { i = 0; do { i++; } while (i != 3); }\n", "unsigned char i;\nvoid main() { i = 0; do{ i++; } while(i != 3); }\n"),
         ("blank_after_hash", "#define N 3\nunsigned char t[N];\nvoid main() {}\n", "# define N 3\nunsigned char t[N];\nvoid main() {}\n"),
     ]
 }
